@@ -4,7 +4,7 @@
    allocated scopes that are neither a task group's own scope nor a task handle's scope, AExit on such scopes
    or when it is rejected by its guards anyway, AGroupEnter on allocated groups, AFinish only at the task's
    base scope, ARun (HWake t f) only for f = the task's waiter). *)
-From AV Require Import Base Machine ScopeFrames DeliverInv TreeInv DeliverAlive PotentialInv TreeStep KernelInv DeliverThms CycleThms ActWalk ActThms CycleMore AuditWitness.
+From AV Require Import Base Machine ScopeFrames DeliverInv TreeInv DeliverAlive PotentialInv TreeStep KernelInv DeliverThms CycleThms ActWalk ActThms CycleMore AuditWitness CheckpointFacts CkifPinned.
 
 (* I4: a cancelled, hosted scope that some live task still reaches (walk from the task's current scope up the
    parent links through scopes that are neither shielded nor cancelled) has its delivery callback scheduled *)
@@ -200,6 +200,29 @@ Theorem C03_ckif_spin_nonvacuous :
   = [HDeliver 1; HStep 1; HDeliver 1].
 Proof. exact spin_premises. Qed.
 Print Assumptions C03_ckif_spin_nonvacuous.
+
+(* F46.  The complement of C03_ckif_spin_terminates: when NO cancelled scope is visible any more from the current scope of
+   a spinning task (e.g. a shield was raised between the cancellation and the delivery), its next step returns normally
+   from checkpoint_if_cancelled -- the spin never goes on with nothing left to deliver.  Any state. *)
+Theorem C03_ckif_spin_released_when_nothing_visible : forall s t,
+  In (HStep t) (ready s) -> k_ctl (tasks s t) = CYield YCkIf -> k_must (tasks s t) = false ->
+  eff_cancelled_from (nscope s) s (k_cur (tasks s t)) = false ->
+  snd (step s (ARun (HStep t))) = RRet 0.
+Proof. exact ckif_spin_released_when_nothing_visible. Qed.
+Print Assumptions C03_ckif_spin_released_when_nothing_visible.
+
+(* Before F46 (CkifPinned.step_pinned: the spinning task yields again unconditionally) the run f46_ops, the same on both
+   machines op by op, ends with task 1 spinning alone in the ready queue, no cancelled scope visible from its scope 2,
+   no delivery callback for the cancelled scope 1 and no timer; from there EVERY later run of its callback suspends it
+   again and leaves the queue [HStep 1]: a busy loop that no delivery will ever end. *)
+Theorem C03_ckif_spin_for_ever_refuted_pinned :
+  snd (run_ops step_pinned init f46_ops) = snd (run_ops step init f46_ops) /\
+  spinning f46_state_pinned 1 /\ eff_cancelled f46_state_pinned 2 = false /\
+  s_chandle (scopes f46_state_pinned 1) = false /\ timers f46_state_pinned = [] /\
+  forall n, snd (step_pinned (pinned_rounds n f46_state_pinned 1) (ARun (HStep 1))) = RBlocked /\
+            ready (pinned_rounds n f46_state_pinned 1) = [HStep 1].
+Proof. exact ckif_pinned_run_witness. Qed.
+Print Assumptions C03_ckif_spin_for_ever_refuted_pinned.
 
 (* ---- bounded response under concurrent activity of the other tasks, within the op_ok domain (audit C03 item 1) ----
    wcyc n s ops s' = one event-loop iteration from s to s': exactly n callbacks are run, each one the head of the
